@@ -15,6 +15,9 @@ C07  Selection protocols turn criteria into valid, correct cross configurations 
   (R1-outcross of C17: the exchange search itself)
 """
 import ast
+
+from sa.ctorflow import wire
+
 import re
 
 from sa.astutil import canon_tree, alpha_normalise, inline_temporaries, dump, where, kwargs_of, walk_no_nested, field_of
@@ -391,7 +394,34 @@ def check_cross_space(prog, rep):
             if isinstance(v, ast.Call) and dump(v.func) == "len" and len(v.args) == 1 and isinstance(v.args[0], ast.Name):
                 xd = defs.get(v.args[0].id, [None])[0]
                 if isinstance(xd, ast.Call) and isinstance(xd.func, ast.Attribute) and xd.func.attr == "_calc_xmap":
-                    rep.ok(R, f.qualname, "ndecn = len(%s) with %s = %s" % (v.args[0].id, v.args[0].id, dump(xd.func)))
+                    # the map that sizes the decision space must be the map the problem builds for itself: same (ntaxa, nparent, unique_parents) as the factory receives
+                    from sa.ctorflow import resolve_call
+                    callee, skip = resolve_call(prog, f.module, K, xd)
+                    fac = [c for c in walk_no_nested(f.node) if isinstance(c, ast.Call) and any(k.arg == "ndecn" for k in c.keywords)]
+                    fk = {k.arg: k.value for k in fac[0].keywords if k.arg} if fac else {}
+                    if callee is None or any(isinstance(a, ast.Starred) for a in xd.args):
+                        rep.unrec(R, f.qualname, "_calc_xmap call not resolved")
+                        continue
+                    pn = [a.arg for a in callee.node.args.args][skip:]
+                    bound = {pn[i]: a for i, a in enumerate(xd.args) if i < len(pn)}
+                    bound.update({k.arg: k.value for k in xd.keywords if k.arg})
+                    dflt = dict(zip(reversed(pn), reversed(callee.node.args.defaults)))
+                    bad = False
+                    for pname in ("nparent", "unique_parents"):
+                        if pname not in pn or pname not in fk:
+                            continue
+                        got = bound.get(pname, dflt.get(pname))
+                        if got is None or dump(got) != dump(fk[pname]):
+                            rep.violate(R, f.qualname, "the cross map that sizes the decision space is built with %s=%s%s but the problem is built with %s=%s: the optimiser is offered "
+                                        "another number of crosses than the problem's own map has" % (pname, dump(got) if got is not None else "?", "" if pname in bound else " (the default)",
+                                                                                                     pname, dump(fk[pname])), where(f, xd), "%s=%s" % (pname, dump(fk[pname])),
+                                        dump(got) if got is not None else "absent")
+                            bad = True
+                    if "ntaxa" in bound and not dump(bound["ntaxa"]).endswith(".ntaxa"):
+                        rep.unrec(R, f.qualname, "number of taxa of the cross map is %s" % dump(bound["ntaxa"]))
+                        bad = True
+                    if not bad:
+                        rep.ok(R, f.qualname, "ndecn = len(%s) with %s = %s on the problem's own (ntaxa, nparent, unique_parents)" % (v.args[0].id, v.args[0].id, dump(xd.func)))
                     continue
             if combs and len(combs) == 1 and any(x is combs[0] for x in ast.walk(v)) or (isinstance(v, ast.Call) and v in combs):
                 c = combs[0]
@@ -463,3 +493,4 @@ def run(prog, rep, tier):
     check_cross_space(prog, rep)
     c17.check_outcross(prog, rep)
     c17.check_tiled(prog, rep)
+    wire(prog, rep, "C07", 55, 310)
